@@ -187,6 +187,10 @@ func (s *HeaderScanner) Next() bool {
 		for len(s.Value) > 0 && (s.Value[0] == ' ' || s.Value[0] == '\t') {
 			s.Value = s.Value[1:]
 		}
+		// ... and behind it, when the value ends with an empty continuation line
+		for n := len(s.Value); n > 0 && (s.Value[n-1] == ' ' || s.Value[n-1] == '\t'); n-- {
+			s.Value = s.Value[:n-1]
+		}
 	}
 	return true
 }
